@@ -41,7 +41,7 @@ class C08(Prop):
             "(scenario, allocator, k) with k >= 2 (the suite only ever fails k = 1), distinct by construction per distinct scenario")
     ASSUMPTIONS = ["the fault window is exactly the call under test; set-up, comparison prints and tear-down run unfaulted",
                    "only core API calls named by the property; Utils functions are outside its statement"]
-    REQUIRED_CLASSES = ["op:" + o for o in OPS] + ["k>=2", "custom_hooks", "default_allocator", "print_several_KB"]
+    REQUIRED_CLASSES = ["parse_long_number_literal", "op:" + o for o in OPS] + ["k>=2", "custom_hooks", "default_allocator", "print_several_KB"]
 
     def budget(self, tier):
         return {"workers": 14, "examples": 2500 if tier == "quick" else 15000}
@@ -82,6 +82,12 @@ class C08(Prop):
             jt = strip_for_text(jv)
             pre.args["text"] = model.emit_text(jt, random.Random(case["rseed"]))
             pre.args["jv"] = jt
+            if c % 9 == 4:
+                # number literals longer than any fixed scratch buffer (an implementation may well allocate for them): at the top level
+                # (what follows the part that is read is trailing text) or inside an array (accepted or rejected - either way cleanly)
+                lit = [b"1" * 70, b"0." + b"3" * 75, b"-" + b"9" * 64, b"1" * 63 + b"e5", b"12345678901234567890" * 4 + b".5e-3", b"-e" + b"0" * 70][a % 6]
+                pre.args["text"] = lit if (a // 6) % 2 else b"[" + pre.args["text"] + b"," + lit + b",true]"
+                pre.args["long_number"] = True
         elif op == "print":
             pre.args["tree"] = tree(jv)
             if c % 7 == 3:
@@ -368,7 +374,10 @@ class C08(Prop):
                     # (outside every property's domain); nothing to enumerate then
                     stats.cls("oddity_refused_fault_free_(no_verdict)")
                     continue
-                if failed0 and op in ("parse", "print", "create", "bulk", "duplicate", "add_helper", "add_ref_array", "add_ref_object"):
+                if pre.args.get("long_number"):
+                    stats.cls("parse_long_number_literal")
+                # (a text with a number literal of more than 63 characters may be accepted or rejected - C03 leaves it open; either way cleanly)
+                if failed0 and not pre.args.get("long_number") and op in ("parse", "print", "create", "bulk", "duplicate", "add_helper", "add_ref_array", "add_ref_object"):
                     raise Violation("%s: fails without any allocation failure" % op, key="fail-nofault")
                 for k in range(1, n + 1):
                     pre = self.setup(lib, case)
